@@ -35,6 +35,9 @@ function pv(s) {
   case "s:": return JSON.parse(r);
   case "y:": return SYMS[Number(r)];
   case "o:": return OBJ[Number(r)];
+  case "a:":
+    var bar = r.indexOf("|"), advRet = Number(r.slice(0, bar)), advOp = JSON.parse(r.slice(bar + 1));
+    return {valueOf: function() { doOp(advOp); return advRet; }};
   }
   throw new Error("bad value " + s);
 }
